@@ -124,3 +124,31 @@ package streamconfig
 //@   requires pr != nil
 //@   modifies pr.ReferenceName, pr.Name, pr.CreatedByFlow
 //@   ensures[the-node-key-is-the-name-as-written] result == nil ==> pr.ReferenceName == old(pr.Name)
+
+// ---------------------------------------------------------------- C08 / C05: loading the flow files never panics
+// A flow file is handed to the validator AS READ - a null entry under `processors:` is a nil pointer in the map - and
+// only a flow the validator accepted is touched afterwards (the validator's nil check is TRUSTED here: an accepted flow
+// has no null processor). A panic while (re)loading would leave a refused update on disk: the handlers restore the files
+// on an error return, not on a panic.
+//@ extern ReadStreamFlowConfig
+//@   modifies nothing
+//@   allocates FlowRepresentation, map, Processor
+//@   ensures result1 == nil ==> result0 != nil && !old(allocated(result0))
+//@ extern validateFlowRepresentation
+//@   params flowRepresentation
+//@   modifies nothing
+//@   ensures[an-accepted-flow-has-no-null-processor] result == nil ==> forall(k, string, in(k, flowRepresentation.Processors) ==> flowRepresentation.Processors[k] != nil)
+//@ extern filepath.Glob
+//@   modifies nothing
+//@ extern filepath.Join
+//@   modifies nothing
+//@ extern errors.Join
+//@   modifies nothing
+//@ func GetFlows
+//@   prop C08, C05
+//@   modifies heap
+//@   allocates map, FlowRepresentation, Processor
+//@   loop 1 modifies heap
+//@   loop 2 modifies allof(Processor.Key), mapof(flow.Processors)
+//@   loop 2 invariant[no-null-processor] flow != nil && (flow.Processors != nil || forall(k, string, !in(k, flow.Processors))) && forall(k, string, in(k, flow.Processors) ==> flow.Processors[k] != nil)
+//@   ensures[a-map-unless-an-error-stops-the-load] result1 == nil ==> result0 != nil
